@@ -18,7 +18,7 @@ type CipherSpec struct {
 	EncAlg  int64 // COSE algorithm id in the Encrypt0 protected header
 	MacAlg  int64 // COSE algorithm id in the Mac0 protected header (0 for AEAD)
 	KeyLen  int   // bytes of SEK
-	MacLen  int   // bytes of SVK
+	MacLen  int   // bytes of SVK by the COSE HMAC registration (informational; not asserted)
 	IVLen   int
 	PRFHash string
 }
